@@ -58,7 +58,9 @@ method("_make_request_to_broker",
        raises={"DuplicateRequestError": "True"},
        # C11: whatever kind of request (also one that expects no response, which may sit queued behind a connection that
        # never comes up): exactly one request handed to the broker client and exactly one timer armed for it
-       ensures={"every-request-gets-a-timer[C11]": "n_events('Timer') == 1 and n_events('MakeRequest') == 1"},
+       ensures={"every-request-gets-a-timer[C11]": "n_events('Timer') == 1 and n_events('MakeRequest') == 1",
+                # C11 "the timer is released as soon as the reply arrives first": the completion handler is attached
+                "completion-handler-attached[C11]": "n_added('_mrtb_cb') == 1"},
        checkpoints={"call:addBoth#1": {
            # C11: exactly one timer per request, armed with the client timeout (or the stated longer minimum)
            "one-timer-with-client-timeout[C11]": "n_events('Timer') == 1 and event_arg('Timer', 0, 0) == "
@@ -71,7 +73,8 @@ ENV = {"self": "Ref_KafkaClient", "broker": "Ref_BrokerClientAPI", "d": "Ref_Def
 contract(K + "_make_request_to_broker.<_mrtb_cb>")(type('_', (), dict(
     sig="(result: Any) -> Any", props=["C11"], entry_point=True, closure_env=dict(ENV),
     ensures={"timer-released[C11]": "not active(dc)",
-             "timeout-overrides-result[C11]": "implies(failure is not None, result == failure)"},
+             "timeout-overrides-result[C11]": "implies(failure is not None, result == failure)",
+             "reply-passed-on-unchanged[C11, C06]": "implies(failure is None, result == p_result)"},
     notes="`result == failure` compares the returned value with the recorded timeout Failure")))
 
 contract(K + "_make_request_to_broker.<_mrtb_timeout>")(type('_', (), dict(
